@@ -787,6 +787,35 @@ func engineCorpus(t *testing.T, out *sink) int {
 			checks: []string{"Doc:z#p@bob"}, gdepth: 6,
 		},
 	}
+	// visited-set hygiene (the D1 family): two operands of one rewrite that must BOTH walk the same subject set, the
+	// subject being a member of it only indirectly, for every operand kind (computed, traversal, nested union, negation)
+	// under && and ||, asked directly and through a subject-set tuple (below an enclosing expansion, where a visited set
+	// already lives in the context).  Whatever one operand visited must not be held against its sibling.
+	ttuc := func(r, cr string) ast.Child { return &ast.TupleToSubjectSet{Relation: r, ComputedSubjectSetRelation: cr} }
+	orc := func(cs ...ast.Child) ast.Child { return &ast.SubjectSetRewrite{Children: cs} }
+	andc := func(cs ...ast.Child) ast.Child { return &ast.SubjectSetRewrite{Operation: ast.OperatorAnd, Children: cs} }
+	notc := func(c ast.Child) ast.Child { return &ast.InvertResult{Child: c} }
+	hyg := map[string]*ast.SubjectSetRewrite{
+		"accC": and(css("v"), css("e")),
+		"accT": and(ttuc("par", "v"), ttuc("par", "e")),
+		"accU": and(orc(css("v"), css("none")), orc(css("e"), css("none"))),
+		"accM": and(css("v"), ttuc("par", "e")),
+		"accN": and(notc(css("none")), css("v"), notc(ttuc("par", "none"))),
+		"accX": or(andc(ttuc("par", "v"), ttuc("par", "e")), css("none")),
+		"accY": or(notc(andc(ttuc("par", "v"), ttuc("par", "e")))),
+		"accZ": and(orc(ttuc("par", "v")), orc(ttuc("par", "v")), css("e")),
+		"accO": or(ttuc("par", "none"), ttuc("par", "e"), css("none")),
+	}
+	hygNames := []string{"accC", "accT", "accU", "accM", "accN", "accX", "accY", "accZ", "accO"}
+	hygRels := []ast.Relation{{Name: "v"}, {Name: "e"}, {Name: "par"}, {Name: "share"}, {Name: "none"}}
+	hygTuples := []string{"Doc:f#v@G:g#m", "Doc:f#e@G:g#m", "Doc:d#v@G:g#m", "Doc:d#e@G:g#m", "G:g#m@H:h#m", "H:h#m@alice", "Doc:d#par@Doc:f#", "Doc:d#par@Doc:f2#", "Doc:f2#v@G:g#m"}
+	var hygChecks []string
+	for _, n := range hygNames {
+		hygRels = append(hygRels, ast.Relation{Name: n, SubjectSetRewrite: hyg[n]})
+		hygTuples = append(hygTuples, "Doc:p"+n+"#share@Doc:d#"+n, "Doc:q"+n+"#share@Doc:p"+n+"#share")
+		hygChecks = append(hygChecks, "Doc:d#"+n+"@alice", "Doc:p"+n+"#share@alice", "Doc:q"+n+"#share@alice", "Doc:p"+n+"#share@bob")
+	}
+	scs = append(scs, sc{nss: doc(hygRels...), tuples: hygTuples, checks: hygChecks, gdepth: 100})
 	// depth ladders: what one hop of each kind costs.  A chain of traversals / subject sets / computed subject sets
 	// with the grant at the far end, asked at every request depth around the boundary; the model predicts each answer.
 	ttu := func(r, cr string) ast.Child { return &ast.TupleToSubjectSet{Relation: r, ComputedSubjectSetRelation: cr} }
@@ -870,6 +899,12 @@ func engineCorpus(t *testing.T, out *sink) int {
 				t.Fatal(err)
 			}
 			ts = append(ts, tu)
+			ee.pool.add(tu.Object)
+			if tu.SubjectID != nil {
+				ee.pool.add(*tu.SubjectID)
+			} else if tu.SubjectSet != nil {
+				ee.pool.add(tu.SubjectSet.Object)
+			}
 		}
 		ee.insert(t, ts)
 		ee.table(out)
